@@ -90,6 +90,10 @@ class Args(object):
         return self
 
     def is_option_set(self, name):  # type: (str) -> bool
+        if self._fmt.has_option(name):
+            # Values are stored under the long name
+            name = self._fmt.get_option(name).long_name
+
         return name in self._options
 
     def is_option_defined(self, name):  # type: (str) -> bool
